@@ -690,7 +690,7 @@ fn find_matches(text: &str, pat: &str) -> Vec<(Range<usize>, Vec<Range<usize>>)>
             pp.push(None);
             i += 2;
         } else if t == "$" && i + 1 < pp0.len() && &pat[pp0[i + 1].s..pp0[i + 1].e] == "_" && pp0[i + 1].s == pp0[i].e {
-            // `$_`: exactly one identifier token (captured like `$$`) - anchors that must not depend on a local's name
+            // `$_`: exactly one identifier or literal token (captured like `$$`) - anchors that must not depend on a local's name
             pp.push(Some(ONE_IDENT));
             i += 2;
         } else {
@@ -708,7 +708,7 @@ fn find_matches(text: &str, pat: &str) -> Vec<(Range<usize>, Vec<Range<usize>>)>
         }
         match pp[pi] {
             Some(p) if p == ONE_IDENT => {
-                if ti < tt.len() && text[tt[ti].s..tt[ti].e].chars().next().map_or(false, |c| c.is_alphabetic() || c == '_') {
+                if ti < tt.len() && text[tt[ti].s..tt[ti].e].chars().next().map_or(false, |c| c.is_alphanumeric() || c == '_' || c == '"' || c == '\'') {
                     caps.push(tt[ti].s..tt[ti].e);
                     let r = go(text, tt, pp, ti + 1, pi + 1, caps);
                     if r.is_none() {
